@@ -86,6 +86,8 @@ import CkbVerif.Lemmas.PoolLinks
 import CkbVerif.Lemmas.PoolAgg
 import CkbVerif.Lemmas.PoolDerived
 import CkbVerif.Lemmas.PoolRbf
+import CkbVerif.Lemmas.PoolHdeps
+import CkbVerif.Lemmas.PoolEvict
 namespace CkbVerif.C11
 open CkbVerif.Pool
 
@@ -228,6 +230,37 @@ theorem calcAnc_is_reachability (c : Cfg) (chain : List Nat) (ops : List Op) (x 
     y ∈ calcAnc (run (empty c chain) ops).links x ↔ Anc (run (empty c chain) ops).links x y :=
   mem_calcAnc (pool_inv_run_partial c chain ops).2.2.1.1.struct x y
 
+/-! ## the header-deps map (`edges.header_deps`) -/
+
+theorem hdepOK_empty (c : Cfg) (chain : List Nat) : HdepOK (empty c chain) :=
+  ⟨List.nodup_nil, fun _ h => (by cases h), fun _ h => (by cases h)⟩
+
+/-- THE HEADER-DEPS CLAUSE, after ANY history (all ten operations, every configuration): `edges.header_deps`
+    has one row per key, and `(id, hs)` is a row iff a pooled transaction `id` has exactly the header deps
+    `hs` and `hs` is not empty (`record_entry_edges` inserts a row only for a transaction with header deps,
+    `remove_entry_edges` drops the row of the removed id). -/
+theorem header_deps_after_any_history (c : Cfg) (chain : List Nat) (ops : List Op) :
+    let s := run (empty c chain) ops
+    (s.hdeps.map (·.1)).Nodup ∧
+    (∀ id hs, (id, hs) ∈ s.hdeps ↔ ∃ t ∈ txs s, t.id = id ∧ t.hdeps = hs ∧ hs ≠ []) := by
+  intro s
+  have h : HdepOK s := hdepOK_closed.run (empty c chain) ops (hdepOK_empty c chain)
+  exact ⟨h.keys, h.row_iff⟩
+
+/-- every operation preserves the header-deps clause, from every state -/
+theorem header_deps_step (s : Pool) (op : Op) (h : HdepOK s) : HdepOK (step s op) :=
+  hdepOK_closed.step s op h
+
+/-- `resolve_conflict_header_dep` (what a reorg that detaches headers triggers), from ANY reachable state:
+    afterwards no pooled transaction depends on one of the detached headers, and nothing new is pooled. -/
+theorem hdr_conflict_clears_after_any_history (c : Cfg) (chain : List Nat) (ops : List Op) (hs : List Nat) :
+    let s := run (empty c chain) ops
+    (∀ t ∈ txs (step s (.hdr hs)), ∀ x ∈ t.hdeps, x ∉ hs) ∧ (∀ t ∈ txs (step s (.hdr hs)), t ∈ txs s) := by
+  intro s
+  have h : HdepOK s := hdepOK_closed.run (empty c chain) ops (hdepOK_empty c chain)
+  have hL : LinksOK s := (pool_inv_run_partial c chain ops).2.2.1.1
+  exact ⟨resolveHeaders_clears h hL hs, resolveHeaders_shrinks hL hs⟩
+
 /-! ## concrete histories -/
 
 def tx10 : Tx := { id := 10, inputs := [⟨0, 0⟩], deps := [], hdeps := [], nout := 1, size := 100, cycles := 0, fee := 100 }
@@ -325,6 +358,18 @@ theorem panic_witness :
 theorem panic_repaired_witness :
     let s := run (empty { cfg0 with maxAnc := 2, fixPanic := true } [0]) [.add txA .pending 1, .add tx11 .pending 2]
     (addEntry s txT .pending 3).2 = .rejAnc ∧ aggOK (addEntry s txT .pending 3).1 = true := by
+  decide +kernel
+
+def txH1 : Tx := { id := 60, inputs := [⟨1, 0⟩], deps := [], hdeps := [7, 8], nout := 1, size := 100, cycles := 0, fee := 100 }
+def txH2 : Tx := { id := 61, inputs := [⟨60, 0⟩], deps := [], hdeps := [], nout := 1, size := 100, cycles := 0, fee := 100 }
+def txH3 : Tx := { id := 62, inputs := [⟨1, 1⟩], deps := [], hdeps := [9], nout := 1, size := 100, cycles := 0, fee := 100 }
+
+/-- non-vacuity of the header-deps theorems: rows exist only for the transactions with header deps; detaching
+    header 8 removes tx60 AND its child tx61 (which has no header dep itself), tx62 (header 9) stays -/
+example :
+    let s := run (empty cfg0 [0, 1]) [.add txH1 .pending 1, .add txH2 .pending 2, .add txH3 .pending 3, .add tx10 .pending 4]
+    s.hdeps = [(60, [7, 8]), (62, [9])] ∧ (txs (step s (.hdr [8]))).map (·.id) = [62, 10] ∧
+      (step s (.hdr [8])).hdeps = [(62, [9])] := by
   decide +kernel
 
 /-! ## replacement (RBF) -/
@@ -969,6 +1014,254 @@ theorem commit_between_witness :
      s.ghostBad = false ∧ aggOK s = true ∧ parentsOf s.links 10 = [50] ∧
      (commitTx s tx10).1.ghostBad = true ∧ aggOK (commitTx s tx10).1 = false ∧
      (commitTx s tx10).1.entries.map (·.tx.id) = [11] ∧ ancOf (commitTx s tx10).1 11 = some ⟨2, 260, 0, 260⟩) := by
+  decide +kernel
+
+/-! ## round 5: replacement WITH evictions, `limit_size` order, `check_and_record_ancestors` limits, block update
+
+Helper lemmas: `Lemmas/PoolEvict.lean`. -/
+
+theorem poolFee_eq' (s : Pool) : poolFee s = poolFee' s := rfl
+
+/-- the fees `check_rbf` charges (`replacedSet`, Props) are the fees of what `process_rbf` removes
+    (`rbfRemoved`, Lemmas): both complete the pool's total fee after `process_rbf` to the total before -/
+theorem replaced_fees_eq (s : Pool) (h : PoolInvP s) (t : Tx) :
+    (((replacedSet s t).filterMap (getEntry s)).map (·.tx.fee)).sum
+      = (((rbfRemoved s (conflictIds s t)).filterMap (getEntry s)).map (·.tx.fee)).sum := by
+  have h1 := process_rbf_fee_split s h t
+  have h2 := processRbf_fee_split' s h.1 h.2.2.1.1 (conflictIds s t)
+  rw [poolFee_eq', poolFee_eq'] at h1
+  omega
+
+/-- A7 (iii), EXACT, no hypothesis on evictions: for an admitted replacement whose `add_entry` succeeds with
+    the evicted list `ev` (the cell-ref parents `check_and_record_ancestors` threw out to get under
+    `max_ancestors_count`, with their descendants),
+      total fee after + replaced fees + evicted fees = total fee before + fee of the replacement,
+    every fee looked up in the state before the submission, every id counted once (`ev` is duplicate-free,
+    pooled before, and disjoint from the replaced set). -/
+theorem rbf_total_fee_exact (s : Pool) (h : PoolInvP s) (t : Tx) (st : Status) (ts : Nat) (c : List Nat)
+    (hadm : checkRbf s t = .ok c) (hc : conflictIds s t ≠ []) (s2 : Pool) (ev : List Nat)
+    (hadd : addEntry (processRbf s c).1 t st ts = (s2, .ok ev)) :
+    ev.Nodup ∧ (∀ y ∈ ev, (getEntry s y).isSome ∧ y ∉ replacedSet s t) ∧
+    poolFee s2 + (((replacedSet s t).filterMap (getEntry s)).map (·.tx.fee)).sum
+      + ((ev.filterMap (getEntry s)).map (·.tx.fee)).sum = poolFee s + t.fee := by
+  obtain ⟨hceq, _⟩ := rbf_fee_rule s t c hadm hc
+  subst hceq
+  have hx := rbf_fee_exact' s h.1 h.2.2.1.1 t st ts (conflictIds s t) s2 ev hadd
+  have hn := (addEntry_txs_exact _ t st ts s2 ev hadd).1
+  have hd := rbf_evicted_not_replaced s h.2.2.1.1 t st ts (conflictIds s t) s2 ev hadd
+  refine ⟨hn, fun y hy => ⟨(hd y hy).1, fun hr => (hd y hy).2 ?_⟩, ?_⟩
+  · -- replacedSet and rbfRemoved have the same members
+    have := (mem_replacedSet_iff_rmd h.2.2.1.1 t y).mp hr
+    unfold rbfRemoved
+    exact (mem_dedup _ y).mpr this
+  · rw [replaced_fees_eq s h t, poolFee_eq', poolFee_eq']; exact hx
+
+/-- WHEN the total fee can drop: an admitted replacement lowers the pool's total fee iff its fee is smaller
+    than the replaced fees plus the EVICTED fees.  Since `check_rbf` demands the replaced fees plus the
+    increment, a drop needs evictions worth more than the surplus over the replaced fees
+    (`rbf_total_fee_grows_unless_evicted`); without evictions it is impossible (`rbf_total_fee_grows`). -/
+theorem rbf_total_fee_drops_iff (s : Pool) (h : PoolInvP s) (t : Tx) (st : Status) (ts : Nat) (c : List Nat)
+    (hadm : checkRbf s t = .ok c) (hc : conflictIds s t ≠ []) (s2 : Pool) (ev : List Nat)
+    (hadd : addEntry (processRbf s c).1 t st ts = (s2, .ok ev)) :
+    poolFee s2 < poolFee s ↔
+      t.fee < (((replacedSet s t).filterMap (getEntry s)).map (·.tx.fee)).sum
+        + ((ev.filterMap (getEntry s)).map (·.tx.fee)).sum := by
+  have := (rbf_total_fee_exact s h t st ts c hadm hc s2 ev hadd).2.2
+  omega
+
+/-- `rbf_total_fee_grows` without its no-eviction hypothesis: total fee after + evicted fees ≥ total fee
+    before + `min_rbf_rate · size / 1000`. -/
+theorem rbf_total_fee_grows_unless_evicted (s : Pool) (h : PoolInvP s) (t : Tx) (st : Status) (ts : Nat) (c : List Nat)
+    (hadm : checkRbf s t = .ok c) (hc : conflictIds s t ≠ []) (s2 : Pool) (ev : List Nat)
+    (hadd : addEntry (processRbf s c).1 t st ts = (s2, .ok ev)) :
+    poolFee s2 + ((ev.filterMap (getEntry s)).map (·.tx.fee)).sum ≥ poolFee s + rateFee s.cfg.minRbfRate t.size := by
+  have h1 := (rbf_total_fee_exact s h t st ts c hadm hc s2 ev hadd).2.2
+  have h2 := (rbf_fee_rule s t c hadm hc).2
+  rw [minReplaceFee_eq] at h2
+  unfold rateFee
+  omega
+
+/-- WITNESS (kernel-evaluated; `Lemmas/PoolEvict.lean` `evS`, `evT`): max_ancestors_count = 2, RBF on; pooled
+    Q (fee 200) -> P (fee 100000, uses chain cell 0:2 as a CELL DEP) and A (fee 100, spends 0:0).  T (fee 300)
+    spends 0:0 and 0:2: it conflicts with A only, `check_rbf` asks for 100 + 150 = 250 and admits it;
+    `add_entry` then counts three ancestors (P, Q and itself), evicts the cell-ref parent P, and succeeds:
+    the submission answers ok, replaced [10], evicted [20]; the pool's total fee falls from 100300 to 500. -/
+theorem rbf_fee_drop_with_eviction_witness :
+    poolFee evS = 100300 ∧ checkRbf evS evT = .ok [10] ∧ evS.ghostBad = false ∧
+    (match (submit evS evT .pending 4).2 with | .ok r e l => (r, e, l) | _ => ([], [], [])) = ([10], [20], []) ∧
+    poolFee (submit evS evT .pending 4).1 = 500 ∧ (submit evS evT .pending 4).1.entries.map (·.tx.id) = [19, 30] := by
+  decide +kernel
+
+/-- non-vacuity of `rbf_total_fee_exact` / `_drops_iff` on the witness: all hypotheses hold, `ev = [20]` -/
+example :
+    PoolInvP evS ∧
+    (checkRbf evS evT = .ok [10] ∧ conflictIds evS evT ≠ [] ∧
+     (addEntry (processRbf evS [10]).1 evT .pending 4).2 = .ok [20] ∧ replacedSet evS evT = [10]) :=
+  ⟨pool_inv_run_partial _ _ _, by decide +kernel⟩
+
+/-! ### `limit_size` -/
+
+/-- `next_evict_entry(status)`: the victim is pooled with that status and has the MINIMUM evict key
+    (fee rate, then descendants_count, then timestamp — `EvictKey::cmp`) among the entries of that status;
+    `None` iff no entry has the status. -/
+theorem next_evict_is_minimum (s : Pool) (st : Status) :
+    (∀ id, nextEvict s st = some id → ∃ e ∈ s.entries, e.tx.id = id ∧ e.status = st ∧
+      ∀ x ∈ s.entries, x.status = st → keyLt (evictKey x) (evictKey e) = false) ∧
+    (nextEvict s st = none ↔ ∀ x ∈ s.entries, x.status ≠ st) :=
+  ⟨fun id h => nextEvict_min s st id h, nextEvict_none_iff s st⟩
+
+/-- `limit_size`, one round: nothing happens while the pool fits; otherwise the victim is the minimum-key
+    Pending entry, if there is no Pending entry the minimum-key Gap entry, else the minimum-key Proposed one;
+    it leaves with its descendants and the loop continues.  (`limitVictim_spec` spells the preference out.) -/
+theorem limit_size_round (f : Nat) (s : Pool) (ev : List Nat) :
+    limitLoop (f + 1) s ev =
+      if s.totalSize > s.cfg.maxSize then
+        match limitVictim s with
+        | some id => limitLoop f (removeWithDesc s id).1 (ev ++ idsOf (removeWithDesc s id).2)
+        | none => (s, ev)
+      else (s, ev) :=
+  limitSize_victim_order f s ev
+
+theorem limit_size_victim_preference (s : Pool) (id : Nat) :
+    limitVictim s = some id ↔
+      nextEvict s .pending = some id ∨
+      (nextEvict s .pending = none ∧ nextEvict s .gap = some id) ∨
+      (nextEvict s .pending = none ∧ nextEvict s .gap = none ∧ nextEvict s .proposed = some id) :=
+  limitVictim_spec s id
+
+/-- `limit_size` after ANY history: it is the identity on a pool that fits, and its result always fits
+    (`total_tx_size ≤ max_tx_pool_size`: the fuel of the model's loop is always enough, i.e. the Rust `while`
+    loop terminates with the bound established). -/
+theorem limit_size_fits_after_any_history (c : Cfg) (chain : List Nat) (ops : List Op) :
+    let s := run (empty c chain) ops
+    (s.totalSize ≤ s.cfg.maxSize → limitSize s = (s, [])) ∧ (limitSize s).1.totalSize ≤ s.cfg.maxSize :=
+  ⟨limitSize_noop _, limitSize_fits _ (pool_inv_run_partial c chain ops).1⟩
+
+/-- non-vacuity: with a 250-byte limit the cheapest entry (tx 10: lowest fee rate) leaves first and alone -/
+example : (limitSize evS250).2 = [10] ∧ (limitSize evS250).1.totalSize = 200 ∧ evS250.totalSize = 300 := by
+  decide +kernel
+
+/-! ### `check_and_record_ancestors` -/
+
+/-- `add_entry` answers `ExceededMaximumAncestorsCount` exactly when the transaction is new, conflict-free and
+    (a) even without its cell-ref parents it has more than `max_ancestors_count` ancestors (itself included), or
+    (b) — code in /repo, `fixPanic` — the eviction of cell-ref parents took another parent with it. -/
+theorem add_rejects_ancestors_iff (s : Pool) (t : Tx) (st : Status) (ts : Nat) :
+    (addEntry s t st ts).2 = .rejAnc ↔
+      (getEntry s t.id).isNone ∧ conflictIds s t = [] ∧ t.inputs.Nodup ∧
+      (s.cfg.maxAnc < (txAncestors s t).1.length + 1 - (txAncestors s t).2.2.length ∨
+        (s.cfg.maxAnc < (txAncestors s t).1.length + 1 ∧ s.cfg.fixPanic = true ∧
+          ((evictRun s t).2.2.1.any fun p => (getEntry (evictRun s t).1 p).isNone) = true)) :=
+  addEntry_rejAnc_iff_gen s t st ts
+
+/-- the eviction loop stops as soon as the count fits: it removes exactly the first
+    `min |candidates| (count − max_ancestors_count)` candidates (in evict-key order) with their descendants,
+    and exactly those leave the parent set; within the limit nothing is evicted. -/
+theorem evict_loop_is_minimal (cands : List Nat) (s : Pool) (cnt : Nat) (parents ev : List Nat) :
+    (evictLoop cands s cnt parents ev).2.1 = cnt - min cands.length (cnt - s.cfg.maxAnc) ∧
+    (evictLoop cands s cnt parents ev).2.2.1 = parents.filter (· ∉ cands.take (min cands.length (cnt - s.cfg.maxAnc))) :=
+  ⟨evictLoop_stops cands s cnt parents ev, evictLoop_parents_take cands s cnt parents ev⟩
+
+theorem add_within_limit_evicts_nothing (s : Pool) (t : Tx) (st : Status) (ts : Nat) (s2 : Pool) (ev : List Nat)
+    (hadd : addEntry s t st ts = (s2, .ok ev)) (hlim : (txAncestors s t).1.length + 1 ≤ s.cfg.maxAnc) : ev = [] :=
+  addEntry_no_evict_within_limit s t st ts s2 ev hadd hlim
+
+/-- what `add_entry` does to the set of pooled transactions, exactly: the evicted ids (duplicate-free, all
+    pooled before) leave, the new transaction is appended -/
+theorem add_entry_txs_exact (s1 : Pool) (t : Tx) (st : Status) (ts : Nat) (s2 : Pool) (ev : List Nat)
+    (hadd : addEntry s1 t st ts = (s2, .ok ev)) :
+    ev.Nodup ∧ (∀ y ∈ ev, (getEntry s1 y).isSome) ∧ txs s2 = (txs s1).filter (·.id ∉ ev) ++ [t] :=
+  addEntry_txs_exact s1 t st ts s2 ev hadd
+
+/-- non-vacuity of `add_rejects_ancestors_iff` (a grandchild beyond the limit) -/
+example : (addEntry evS evB .pending 9).2 = .rejAnc ∧ (addEntry evS evA .pending 9).2 = .dup := by decide +kernel
+
+/-! ### the block update (`_update_tx_pool_for_reorg`, attached blocks) -/
+
+/-- a predicate closed under the core operations and blind to the `chain` field is closed under the block update -/
+theorem coreClosed_updateForBlock {P : Pool → Prop} (hP : CoreClosed P)
+    (hchain : ∀ (s : Pool) (ch : List Nat), P s → P { s with chain := ch })
+    (s : Pool) (committed : List Tx) (dh dp g p : List Nat) (now : Nat) (hs : P s) :
+    P (updateForBlock s committed dh dp g p now) := by
+  unfold Pool.updateForBlock
+  simp only
+  have h1 := hchain s (s.chain ++ committed.map (·.id)) hs
+  have h2 : ∀ (l : List Tx) (x : Pool), P x → P (l.foldl (fun s t => (commitTx s t).1) x) := by
+    intro l
+    induction l with
+    | nil => exact fun _ h => h
+    | cons a l ih => exact fun x hx => ih _ (hP.step x (.commit a) hx)
+  have h3 := h2 committed _ h1
+  generalize committed.foldl (fun s t => (commitTx s t).1) { s with chain := s.chain ++ committed.map (·.id) } = s3 at h3
+  have h4 : P (if dh.isEmpty then s3 else (resolveHeaders s3 dh).1) := by
+    split
+    · exact h3
+    · exact hP.step s3 (.hdr dh) h3
+  generalize (if dh.isEmpty then s3 else (resolveHeaders s3 dh).1) = s4 at h4
+  have h5 : P (detachProposals s4 dp) := hP.step s4 (.detach dp) h4
+  generalize detachProposals s4 dp = s5 at h5
+  have hset : ∀ (l : List Nat) (st : Status) (x : Pool), P x → P (l.foldl (fun s id => setEntry s id st) x) := by
+    intro l st
+    induction l with
+    | nil => exact fun _ h => h
+    | cons a l ih => exact fun x hx => ih _ (hP.set x a st hx)
+  have h6 : P (promote s5 g p) := by
+    unfold Pool.promote
+    exact hset _ _ _ (hset _ _ _ h5)
+  generalize promote s5 g p = s6 at h6
+  have h7 : P (removeExpired s6 (expiredIds s6 now)) := hP.step s6 (.expire (expiredIds s6 now)) h6
+  exact hP.step _ .limit h7
+
+/-- THE BLOCK UPDATE PRESERVES THE INVARIANT: from any state satisfying the proved pool invariant and the
+    header-deps clause, `_update_tx_pool_for_reorg` for attached blocks (commits incl. transactions that were
+    never pooled, detached proposals, status promotion, expiry, `limit_size`) re-establishes both, and the
+    result fits `max_tx_pool_size`. -/
+theorem block_update_preserves_inv (s : Pool) (h : PoolInvP s) (hh : HdepOK s)
+    (committed : List Tx) (dh dp g p : List Nat) (now : Nat) :
+    PoolInvP (updateForBlock s committed dh dp g p now) ∧ HdepOK (updateForBlock s committed dh dp g p now) := by
+  have hc : CoreClosed (fun s => (P4 s ∧ LimitOK s ∧ AggInv s) ∧ HdepOK s) :=
+    (p4_closed.and (limitOK_closed.and aggInv_closed)).and hdepOK_closed
+  have hblind : ∀ (s : Pool) (ch : List Nat), ((P4 s ∧ LimitOK s ∧ AggInv s) ∧ HdepOK s) →
+      ((P4 { s with chain := ch } ∧ LimitOK { s with chain := ch } ∧ AggInv { s with chain := ch }) ∧ HdepOK { s with chain := ch }) := by
+    intro s ch hs
+    have hL : LinksOK { s with chain := ch } := hs.1.1.2.1.congr rfl rfl rfl rfl
+    exact ⟨⟨⟨hs.1.1.1, hL, hs.1.1.2.2.congr rfl rfl rfl⟩, hs.1.2.1,
+      ⟨hL, fun a b => aggOK_congr rfl rfl (hs.1.2.2.2 a b)⟩⟩, ⟨hs.2.keys, hs.2.own, hs.2.recd⟩⟩
+  have := coreClosed_updateForBlock hc hblind s committed dh dp g p now
+    ⟨⟨⟨h.1, h.2.2.1.1, h.2.2.2⟩, h.2.1, h.2.2.1⟩, hh⟩
+  exact ⟨⟨this.1.1.1, this.1.2.1, this.1.2.2, this.1.1.2.2⟩, this.2⟩
+
+/-- non-vacuity of `block_update_preserves_inv`: tx10 committed, tx11 promoted to proposed, tx12 to gap -/
+example :
+    let s := run (empty cfgR [0]) chainOps
+    (updateForBlock s [tx10] [] [] [12] [11] 5).entries.map (fun e => (e.tx.id, e.status)) = [(11, .proposed), (12, .gap)] ∧
+    (updateForBlock s [tx10] [] [] [12] [11] 5).chain = [0, 10] := by
+  decide +kernel
+
+/-! ### a pooled transaction can lose an input parent inside `add_entry` (found by the node-level stream) -/
+
+def txOQ : Tx := { id := 100, inputs := [⟨1, 0⟩], deps := [⟨0, 0⟩], hdeps := [], nout := 1, size := 250, cycles := 537, fee := 2000 }
+def txOP : Tx := { id := 101, inputs := [⟨100, 0⟩], deps := [⟨0, 0⟩, ⟨2, 0⟩], hdeps := [], nout := 1, size := 287, cycles := 537, fee := 3000 }
+def txOT : Tx := { id := 102, inputs := [⟨101, 0⟩, ⟨2, 0⟩], deps := [⟨0, 0⟩], hdeps := [], nout := 1, size := 294, cycles := 537, fee := 4000 }
+
+/-- WITNESS (corpus/C11/node-evicted-cell-ref-parent-is-input-parent.ops, replayed on a real node through
+    `submit_local_tx`): max_ancestors_count = 2, the code in /repo (`fixF2`, `fixPanic`).  Q(100) -> P(101), P uses chain
+    cell 2:0 as a cell dep; T(102) spends P's output 101:0 AND consumes 2:0.  `check_and_record_ancestors` counts
+    3 > 2 ancestors, evicts the cell-ref parent P — which is also an INPUT parent of T —, removes it from `parents`
+    (so the post-eviction check does not see it) and admits T: afterwards `edges.inputs` maps 101:0 to the pooled
+    T although transaction 101 is neither pooled nor on the chain; T has no parent link and `ancestors_count = 1`.
+    All proved clauses (no double spend, edges, links between POOLED transactions, aggregates) hold in that state:
+    the defect is outside them — the pool's content is no longer resolvable against chain + pool. -/
+theorem evicted_input_parent_orphan_witness :
+    let s := run (empty { cfg0 with maxAnc := 2, fixF2 := true, fixPanic := true } [0, 1, 2, 3, 4])
+      [.submit txOQ .pending 1, .submit txOP .pending 2]
+    s.entries.map (·.tx.id) = [100, 101] ∧
+    (match (submit s txOT .pending 3).2 with | .ok r e l => (r, e, l) | _ => ([], [], [0])) = ([], [101], []) ∧
+    (submit s txOT .pending 3).1.entries.map (·.tx.id) = [100, 102] ∧
+    inputUser (submit s txOT .pending 3).1 ⟨101, 0⟩ = some 102 ∧
+    getEntry (submit s txOT .pending 3).1 101 = none ∧ 101 ∉ (submit s txOT .pending 3).1.chain ∧
+    parentsOf (submit s txOT .pending 3).1.links 102 = [] ∧ ancOf (submit s txOT .pending 3).1 102 = some ⟨1, 294, 537, 4000⟩ ∧
+    (submit s txOT .pending 3).1.ghostBad = false ∧ aggOK (submit s txOT .pending 3).1 = true := by
   decide +kernel
 
 end CkbVerif.C11
